@@ -3,8 +3,11 @@
 
 mod common;
 mod entity;
+mod gzdec;
 mod lex;
+mod neg_eng;
 mod serve_eng;
+mod stream_eng;
 
 fn main() {
     let a: Vec<String> = std::env::args().collect();
@@ -14,6 +17,8 @@ fn main() {
     }
     match a[1].as_str() {
         "serve" => serve_eng::run(&a[2], &a[3]),
+        "stream" => stream_eng::run(&a[2], &a[3]),
+        "neg" => neg_eng::run(&a[2], &a[3]),
         e => {
             eprintln!("unknown engine {e}");
             std::process::exit(2);
